@@ -39,6 +39,14 @@ func init() {
 					js = append(js, sym.Job{Harness: "VH_C03_frame_trailer", Params: map[string]int{"sel": sel, "p": p, "q": 0}})
 				}
 			}
+			// responses whose byte-count field announces more bytes than the payload holds (handler-built values)
+			for _, sel := range ints(10, 11, 12, 13, 19) {
+				for _, p := range ints(1, 2, 3, 250) {
+					for _, q := range ints(1, 2) {
+						js = append(js, sym.Job{Harness: "VH_C03_frame_trailer", Params: map[string]int{"sel": sel, "p": p, "q": q}})
+					}
+				}
+			}
 			for which := 0; which < 2; which++ {
 				for _, l := range ls {
 					js = append(js, sym.Job{Harness: "VH_C03_withcrc", Params: map[string]int{"which": which, "L": l}})
@@ -57,7 +65,7 @@ func init() {
 			return js
 		},
 		Bounds: map[string]string{
-			"quick":    "CRC step lemma: arbitrary 16-bit state x arbitrary next byte at every index of buffers of 1,2,3 bytes (no bound on message length for the lemma itself); whole-function comparison for lengths 0..1 (impl-vs-table equivalence over 2 or more symbolic bytes does not finish within the quick time limit); 21 RTU frame encoders with payload lengths {0,1,2,3,250,251,252}; CRC-verifying parsers on every frame of length 0..14 with every trailer value; every accepted frame of length 4..30 re-encoded from the parsed value ends with the CRC of its preceding bytes (CRC abstraction + refinement)",
+			"quick":    "CRC step lemma: arbitrary 16-bit state x arbitrary next byte at every index of buffers of 1,2,3 bytes (no bound on message length for the lemma itself); whole-function comparison for lengths 0..1 (impl-vs-table equivalence over 2 or more symbolic bytes does not finish within the quick time limit); 21 RTU frame encoders with payload lengths {0,1,2,3,250,251,252}, the byte-counted response encoders also with a byte-count field 1..2 larger than the payload; CRC-verifying parsers on every frame of length 0..14 with every trailer value; every accepted frame of length 4..30 re-encoded from the parsed value ends with the CRC of its preceding bytes (CRC abstraction + refinement)",
 			"thorough": "step lemma on buffers of 1,2,3,7,64,256 bytes; whole-function lengths 0..2; encoder payload lengths 0..253; CRC-verifying parsers on lengths 0..40 and 255..258; re-encoding of accepted frames of lengths 4..64 and 255..258",
 		},
 		Outside:     []string{"whole-function equivalence beyond the listed lengths rests on the induction step (k=1 induction over the byte loop, structural: the loop carries exactly (crc, index))", "CRC-verifying parsers on frame lengths not listed"},
